@@ -167,7 +167,24 @@ def cached_identity_params(repo: Repo, only_functions=None):
                         tied = False
                         detail.append(f"{m2.rel}:{c.lineno} passes {norm(ra) if ra is not None else 'nothing'}")
                 yield (f"{mod.rel.split('/')[-1]}:{q}:registry-param:{p}", tied, f.where(), f"cached function {q} takes the registry {p!r}, which hashes by identity: after registry.add/modify/remove the same key still hits and the value computed from the old table is returned" + (" (" + "; ".join(detail) + ")" if detail else ""), "no registry parameter, or always the .registry of a Unit argument (whose hash follows the table)", f"{len(sites)} call sites")
+            if "unit_system" in r and not memo.class_hashes_by_identity(repo, US, "UnitSystem"):
+                # the class compares by value: two objects that compare equal share one cache entry, so the comparison
+                # must read everything the cached computation reads from the object
+                usm = repo.mod(US)
+                eq_attrs = set()
+                for mname in ("UnitSystem.__eq__", "UnitSystem.__hash__"):
+                    for ff in usm.funcs.get(mname, []):
+                        eq_attrs |= {n.attr for n in ast.walk(ff.node) if isinstance(n, ast.Attribute) and isinstance(n.value, ast.Name) and n.value.id == "self"}
+                reads = set()
+                for n in ast.walk(f.node):
+                    if isinstance(n, ast.Attribute) and isinstance(n.value, ast.Name) and n.value.id == p:
+                        reads.add(n.attr)
+                    if isinstance(n, ast.Subscript) and isinstance(n.value, ast.Name) and n.value.id == p:
+                        reads.add("units_map")  # unit_system[dimension] answers from (and fills) the table
+                missing = sorted(reads - eq_attrs)
+                yield (f"{mod.rel.split('/')[-1]}:{q}:unit-system-key-equality:{p}", not missing, f.where(), f"cached function {q} is keyed by the unit system {p!r}, whose __eq__/__hash__ read only {sorted(eq_attrs)}, but the cached value is computed from {sorted(reads)}: a unit system that compares equal (e.g. a user system redefined under the same name) is served the answer computed for the other one", "equality covers every attribute the cached value depends on (or identity semantics)", f"not covered: {missing}")
             if "unit_system" in r and memo.class_hashes_by_identity(repo, US, "UnitSystem"):
+                yield (f"{mod.rel.split('/')[-1]}:{q}:unit-system-key-equality:{p}", True, f.where(), "UnitSystem has identity semantics: two unit systems never share a cache entry", "", "")
                 inval = _unit_system_mutators_invalidate(repo, f)
                 yield (f"{mod.rel.split('/')[-1]}:{q}:unit-system-param:{p}", inval, f.where(), f"cached function {q} takes the unit system {p!r}, which hashes by identity, and reads its table: after unit_system[dimension] = unit the memoised answer for the old table is still returned", "UnitSystem.__setitem__ invalidates the cache, or the unit system is not part of a cached computation", "no invalidation")
 
